@@ -1,5 +1,5 @@
 // C20 verification master: switchable, logged uid policies.
-//   creator_file(path): answer chosen by the directory under /c20 (`pol cf <dir> <spec>`)
+//   creator_file(path): answer chosen by the directory under /c20 (`pol cf <dir> [drop+]<spec>`)
 //   valid_seteuid(ob, uid): answer chosen by (oid, uid) with `*` wildcards (`pol vs <oid> <uid> <spec>`)
 // spec:  s:<text> string | i:<n> int | arr array | err runtime error in the apply | none value 0
 // every call is logged as `VL cf <path> <spec>` / `VL vs <oid> s:<uid> <spec>` / `VL co <path> <spec>`
@@ -53,6 +53,13 @@ mixed answer (string spec) {
 mixed creator_file (string file) {
   string d, f, spec;
   if (sscanf (file, "/c20/%s/%s", d, f) != 2 || !stringp (spec = cfpol[d])) return "Root";
+  // re-entrancy (`drop+<spec>`): give_uid_to_object reads the creator's uids only after this apply returned.  When the
+  // creating object (the object running the innermost op) is this master, it drops its own euid first - an ordinary,
+  // logged op nested in the creating op (the snapshot closes the open segment)
+  if (spec[0..4] == "drop+") {
+    spec = spec[5..];
+    if (REG->cur_actor () == "m") { REG->snap (); run_op ("seteuid,i:0"); }
+  }
   VL ("cf " + file + " " + spec);
   return answer (spec);
 }
